@@ -518,6 +518,199 @@ def _specialise_merged(facts):
     return notes
 
 
+def _strip_ref(e):
+    """Look through `&x`, `&mut x`, `*x`, `x.clone()` - forms in which a value is handed on unchanged."""
+    while isinstance(e, dict):
+        if e.get("k") in ("addrof", "unary") and isinstance(e.get("e"), dict):
+            e = e["e"]
+        elif e.get("k") == "mcall" and e.get("name") in ("clone", "to_owned", "borrow") and not e.get("args"):
+            e = e.get("recv")
+        elif e.get("k") == "block" and not e.get("stmts") and e.get("e") is not None:
+            e = e["e"]
+        else:
+            break
+    return e
+
+
+def _beta(node, state):
+    """`(|a, b| body)(x, y)` -> `{ let a = x; let b = y; body }` (a closure argument that was substituted for the parameter it was passed as)."""
+    if isinstance(node, list):
+        for i, x in enumerate(node):
+            node[i] = _beta(x, state)
+        return node
+    if not isinstance(node, dict):
+        return node
+    for key, v in list(node.items()):
+        if isinstance(v, (dict, list)):
+            node[key] = _beta(v, state)
+    if node.get("k") == "call" and isinstance(node.get("f"), dict):
+        f = _strip_ref(node["f"])
+        if isinstance(f, dict) and f.get("k") == "closure" and len(f.get("params", [])) == len(node.get("args", [])):
+            state["next"] += 1000
+            off = state["next"]
+            only = _bound_ids(f)
+            subst, lets = {}, []
+            assigned = _assigned_locals(f["body"])
+            for p, a in zip(f["params"], node["args"]):
+                if p.get("k") == "p_wild":
+                    if not _simple(a):
+                        lets.append({"k": "let", "pat": {"k": "p_wild"}, "init": a, "ln": node.get("ln"), "s": node.get("s")})
+                elif p.get("k") == "p_bind" and "sub" not in p and p.get("id") not in assigned and _simple(a):
+                    subst[p["id"]] = a
+                else:
+                    lets.append({"k": "let", "pat": _copy(p, off, {}, only=only), "init": a, "ln": node.get("ln"), "s": node.get("s")})
+            body = _copy(f["body"], off, subst, in_closure=True, only=only)
+            return {"k": "block", "stmts": lets, "e": body, "ty": node.get("ty"), "ln": node.get("ln"), "s": node.get("s"), "inl": "<closure argument>"}
+        # a fn item that was substituted for a fn-pointer parameter: `is_kind(self)` with is_kind := Tree::is_list  ->  `self.is_list()`
+        if isinstance(f, dict) and f.get("k") == "path" and f.get("res") != "local" and f.get("def") and not node.get("def"):
+            d = fb.norm(f["def"])
+            g = (state.get("facts").fns.get(d) if state.get("facts") is not None else None)
+            if g is not None and g.kind != "closure":
+                args = list(node.get("args", []))
+                if g.params and (g.params[0].get("pat") or {}).get("name") == "self" and args:
+                    return {"k": "mcall", "name": d.rsplit("::", 1)[-1], "def": f["def"], "recv": _strip_ref(args[0]) if args[0].get("k") == "addrof" else args[0],
+                            "args": args[1:], "ty": node.get("ty"), "ln": node.get("ln"), "s": node.get("s")}
+                out = dict(node)
+                out["def"] = f["def"]
+                return out
+    return node
+
+
+def _specialise_wrappers(facts):
+    """A recorded fn that became a thin wrapper around an unrecorded *recursive* generic helper (`replace(id, t)` = `rewrite_at(id, &|_| t.clone())`,
+    where `rewrite_at` recurses with the same id and the same closure) gets its own recursive body back: the helper's body with the wrapper's
+    arguments substituted, closure arguments applied in place, and the helper's recursive calls turned into recursive calls of the wrapper."""
+    rec = _recorded()
+    if rec is None:
+        return []
+    notes = []
+    for F in list(facts.fn_list):
+        if F.kind == "closure" or F.body is None or F.crate not in ("liwe", "iwes", "iwe") or F.absorbed:
+            continue
+        known = rec.get(F.unit)
+        if known is None or F.def_ in known or F.impl_trait or F.in_trait or "::tests::" in F.def_:
+            continue
+        inner = [c for c in fb.calls_in(F.body) if fb.norm(c.get("def") or "") == F.def_]
+        if not inner:
+            continue                      # not recursive: the ordinary helper inlining handles it
+        fparams = []
+        for p in F.params:
+            pat = p.get("pat") or {}
+            if pat.get("k") != "p_bind" or "sub" in pat:
+                fparams = None
+                break
+            fparams.append(pat["id"])
+        if not fparams:
+            continue
+        done = []
+        for G in facts.fn_list:
+            if G is F or G.body is None or G.kind == "closure" or G.def_ not in known:
+                continue
+            b = G.body
+            while isinstance(b, dict) and b.get("k") == "block" and len(b.get("stmts", [])) + (1 if b.get("e") is not None else 0) == 1:
+                b = b["e"] if b.get("e") is not None else b["stmts"][0]
+            if not (isinstance(b, dict) and b.get("k") in ("call", "mcall") and fb.norm(b.get("def") or "") == F.def_):
+                continue
+            gargs = _args_of(b)
+            if len(gargs) != len(fparams):
+                continue
+            gparams = {}
+            okp = True
+            for k_, p in enumerate(G.params):
+                pat = p.get("pat") or {}
+                if pat.get("k") != "p_bind" or "sub" in pat:
+                    okp = False
+                    break
+                gparams[pat["id"]] = (k_, pat.get("name"), p.get("ty"))
+            if not okp:
+                continue
+            # forwarded: F's parameter i receives G's parameter k unchanged; bound: it receives some other expression
+            fwd = {}
+            for i, a in enumerate(gargs):
+                a0 = _strip_ref(a)
+                if isinstance(a0, dict) and a0.get("k") == "path" and a0.get("res") == "local" and a0.get("id") in gparams:
+                    fwd[i] = a0["id"]
+            bound = [i for i in range(len(fparams)) if i not in fwd]
+            # every recursive call of F hands its bound parameters on unchanged
+            good = True
+            for c in inner:
+                xs = _args_of(c)
+                if len(xs) != len(fparams):
+                    good = False
+                    break
+                for i in bound:
+                    x0 = _strip_ref(xs[i])
+                    if not (isinstance(x0, dict) and x0.get("k") == "path" and x0.get("res") == "local" and x0.get("id") == fparams[i]):
+                        good = False
+            if not good:
+                continue
+            state = {"next": (max(_max_id(F.body), _max_id(G.body)) // 1000 + 2) * 1000, "facts": facts}
+            off = state["next"]
+            body = _copy(F.body, off, {}, in_closure=True)                 # F's locals renumbered; parameters too (offset ids)
+            # recursive calls F(x..) -> G(y..)
+            gid_by_k = dict((k_, gid) for gid, (k_, _n, _t) in gparams.items())
+
+            def retarget(node):
+                if isinstance(node, list):
+                    for x in node:
+                        retarget(x)
+                    return
+                if not isinstance(node, dict):
+                    return
+                for v_ in node.values():
+                    if isinstance(v_, (dict, list)):
+                        retarget(v_)
+                if node.get("k") in ("call", "mcall") and fb.norm(node.get("def") or "") == F.def_:
+                    xs = _args_of(node)
+                    ys = []
+                    for k_ in range(len(G.params)):
+                        gid = gid_by_k[k_]
+                        src = [i for i, g_ in fwd.items() if g_ == gid]
+                        if src:
+                            ys.append(xs[src[0]])
+                        else:
+                            nm, ty = gparams[gid][1], gparams[gid][2]
+                            ys.append({"k": "path", "res": "local", "id": gid, "name": nm, "ty": ty, "ln": node.get("ln"), "s": node.get("s")})
+                    node["def"] = G.def_
+                    if "rdef" in node:
+                        node["rdef"] = G.def_
+                    if G.params and (G.params[0].get("pat") or {}).get("name") == "self":
+                        node["k"] = "mcall"
+                        node["name"] = G.def_.rsplit("::", 1)[-1]
+                        node["recv"] = ys[0]
+                        node["args"] = ys[1:]
+                        node.pop("f", None)
+                    else:
+                        node["k"] = "call"
+                        node["args"] = ys
+            retarget(body)
+            # substitute F's (renumbered) parameters by G's argument expressions
+            subst = dict((fparams[i] + off, gargs[i]) for i in range(len(fparams)))
+
+            def substitute(node):
+                if isinstance(node, list):
+                    return [substitute(x) for x in node]
+                if not isinstance(node, dict):
+                    return node
+                if node.get("k") == "path" and node.get("res") == "local" and node.get("id") in subst:
+                    return copy.deepcopy(subst[node["id"]])
+                return dict((k_, substitute(v_) if isinstance(v_, (dict, list)) else v_) for k_, v_ in node.items())
+            body = substitute(body)
+            body = _beta(body, state)
+            body = _fold(body)
+            G.body = body
+            G.d["body"] = body
+            G._canon_env = None
+            G.absorbed_fns = sorted(set(list(G.absorbed_fns) + [F.def_]))
+            done.append(G.def_)
+        if done:
+            F.absorbed = True
+            facts.specialised = getattr(facts, "specialised", {})
+            facts.specialised[F.def_] = sorted(set(facts.specialised.get(F.def_, []) + done))
+            notes.append("unrecorded recursive helper `%s` is analysed specialised into its wrappers %s" % (fb.last2(F.def_), ", ".join("`%s`" % fb.last2(d) for d in done)))
+    return notes
+
+
 def apply(facts):
     """Inline unrecorded helper fns into their callers (in place). Returns notes for the evidence."""
     notes0 = []
@@ -525,6 +718,10 @@ def apply(facts):
         notes0 += _specialise_merged(facts)
     except Exception as e:
         notes0.append("merged-fn specialisation disabled: %s" % e)
+    try:
+        notes0 += _specialise_wrappers(facts)
+    except Exception as e:
+        notes0.append("wrapper specialisation disabled: %s" % e)
     try:
         n = _inline_local_closures(facts)
         if n:
